@@ -318,6 +318,12 @@ static cJSON *get_item_from_pointer(cJSON * const object, const char * pointer, 
         return NULL;
     }
 
+    if ((pointer[0] != '\0') && (pointer[0] != '/'))
+    {
+        /* a JSON pointer is either empty or starts with '/' (RFC 6901 section 3) */
+        return NULL;
+    }
+
     /* follow path of the pointer */
     while ((pointer[0] == '/') && (current_element != NULL))
     {
